@@ -144,13 +144,26 @@ def symverQueries (t : SymbolVersionTable) (idxs : List Nat) : String :=
 def splitNats (s : String) : List Nat :=
   if s == "-" || s == "" then [] else (s.splitOn ".").map nat!
 
-def fnv (s : String) : UInt64 :=
-  s.toUTF8.foldl (fun h b => (h ^^^ b.toUInt64) * 0x100000001b3) 0xcbf29ce484222325
+def fnvAdd (h : UInt64) (s : String) : UInt64 :=
+  s.toUTF8.foldl (fun h b => (h ^^^ b.toUInt64) * 0x100000001b3) h
+
+def fnv (s : String) : UInt64 := fnvAdd 0xcbf29ce484222325 s
+
+/-- FNV digest of the text `ok [e0 e1 …]` of an iterator's items, computed incrementally with the
+    model's own `Iter.next` (no quadratic list appends for 65k-entry tables). -/
+def digestLoop {α} (sh : α → String) : Nat → Iter α → UInt64 → Bool → Option UInt64
+  | 0, _, h, _ => some h
+  | n + 1, it, h, first =>
+    match it.next with
+    | (.ok (some a), it') => digestLoop sh n it' (fnvAdd (if first then h else fnvAdd h " ") (sh a)) false
+    | (.ok none, _) => some h
+    | _ => none
 
 /-- a table's byte location is not observable through the crate's API: digest of the entries -/
 def tableDigest {α} (sh : α → String) (t : Table α) : String :=
-  let l := showOut (fun l => "[" ++ " ".intercalate (l.map sh) ++ "]") t.iter.collect.1
-  s!"n={t.len} h={fnv l}"
+  match digestLoop sh (t.data.len + 1) t.iter (fnv "ok [") true with
+  | some h => s!"n={t.len} h={fnvAdd h "]"}"
+  | none => s!"n={t.len} h=panic"
 
 def showStrtab (t : Slice) : String :=
   "strtab(" ++ showOut showLoc (strGetRaw t 0) ++ "/" ++ showOut showLoc (strGetRaw t 1) ++ ")"
@@ -270,8 +283,8 @@ def handle (line0 : String) : String :=
     match kind with
     | "def" => verRecTranscript verDefNext verDefAuxNext VerDef.show VerDefAux.show it
     | "need" => verRecTranscript verNeedNext verNeedAuxNext VerNeed.show VerNeedAux.show it
-    | "defaux" => verAuxTranscript verDefAuxNext VerDefAux.show it
-    | "needaux" => verAuxTranscript verNeedAuxNext VerNeedAux.show it
+    | "defaux" => verAuxTranscript verDefAuxNext VerDefAux.show { it with count := it.count % 65536 }
+    | "needaux" => verAuxTranscript verNeedAuxNext VerNeedAux.show { it with count := it.count % 65536 }
     | _ => "bad-op"
   | ["symver", le, cls, idxs, needcnt, defcnt, versymhex, needhex, needstrhex, defhex, defstrhex] =>
     let le := le == "1"; let c := parseCls cls
@@ -281,15 +294,20 @@ def handle (line0 : String) : String :=
       else some ((⟨le, c, nat! defcnt, sliceOfHex defhex, 0⟩ : VerIter), sliceOfHex defstrhex)
     let t : SymbolVersionTable := ⟨⟨VersionIndex.ep, le, c, sliceOfHex versymhex⟩, needs, defs⟩
     symverQueries t (splitNats idxs)
-  | ["file", sp, queries, hex] =>
-    match minimalParse (parseSpec sp) (sliceOfHex hex) with
+  | ["prefix", sp, queries, k, hex] =>
+    let arr := parseHex hex
+    handleFile sp queries (Slice.ofArray (arr.extract 0 (nat! k)))
+  | ["file", sp, queries, hex] => handleFile sp queries (sliceOfHex hex)
+  | _ => "bad-op"
+where
+  handleFile (sp queries : String) (d : Slice) : String :=
+    match minimalParse (parseSpec sp) d with
     | .ok f =>
       let head := "open=ok " ++ f.ehdr.show ++ " shdrs=" ++ showOpt (tableDigest SectionHeader.show) f.shdrs ++
         " phdrs=" ++ showOpt (tableDigest ProgramHeader.show) f.phdrs
       if queries == "-" then head
       else head ++ ";" ++ ";".intercalate ((queries.splitOn ",").map (fileQuery f))
     | r => "open=" ++ showOut (fun _ => "") r
-  | _ => "bad-op"
 
 partial def loop (h : IO.FS.Stream) (out : IO.FS.Stream) : IO Unit := do
   let line ← h.getLine
